@@ -11,6 +11,7 @@ CONSTANTS
  DeclSet = {}
  MaxDefs = 2
  Vias = {"exec", "run"}
+ Rush = TRUE
  Acts = {"define", "del", "rebind", "push", "pop", "clear", "reload", "close", "unload", "boot", "fire", "set", "call", "out"}
 INVARIANT Report
 CHECK_DEADLOCK FALSE
